@@ -232,8 +232,8 @@ class PointOracle(object):
 
 def entry_terms(r, method, hmax):
     """allow_unit = S_1 x max(1, rho/h_max) if the entry is class A for this method, else None."""
-    if hmax is None or not r.resolved or not math.isfinite(r.S):
-        return None
+    if hmax is None or not r.resolved or not math.isfinite(r.S) or not r.S > 0:
+        return None        # S = 0: value, derivative and first-order noise all vanish - nothing to measure against
     if not r.R_an >= cm.C_A[method] * hmax:
         return None
     fac = 1.0
@@ -335,7 +335,7 @@ def do_jac(acc, orc, form, method, order):
             ratio = err / (AFFINE_UNITS * EPS * unit)
             acc.maxi('worst/affine-eps-units/%s' % method, err / (EPS * unit))
         else:
-            ratio = err / unit if unit > 0 else float('inf')
+            ratio = err / unit if unit > 0 else (0.0 if err == 0 else float('inf'))
             acc.maxi('worst/jac-err-over-S/%s' % method, ratio if math.isfinite(ratio) else 1e300)
             if CALIBRATE:
                 acc.maxi('E/jac/%s' % method, (ratio if math.isfinite(ratio) else 1e300,
@@ -477,7 +477,7 @@ def do_dd(acc, orc, gcache, vlabel, xform, vform, method, order):
         return '%s: restriction is not class A for this method, no accuracy claim' % head
     ddv = float(np.real(dd))
     err = _err(dd, exact)
-    ratio = err / unit if unit > 0 else float('inf')
+    ratio = err / unit if unit > 0 else (0.0 if err == 0 else float('inf'))
     acc.maxi('worst/dd-err-over-S/%s' % method, ratio if math.isfinite(ratio) else 1e300)
     if CALIBRATE:
         acc.maxi('E/dd/%s' % method, (ratio if math.isfinite(ratio) else 1e300,
@@ -631,7 +631,8 @@ def run(ctx):
         '{e_i, ones, alternating, 1e-3 ones, 1e3 e_1} given as list / array / column: within E x S_1 of the exact '
         'directional derivative, and within K1=100 x (its error estimate + sum_j |v_j|/|v| x gradient estimates) + '
         '(E/100) x (sum of the scales) of Gradient . v/|v|.  Any exception is a violation.  Non-trivial = at least '
-        'one judged entry with E x S < |exact|/2 (affine: allowance < |A_ij|/2).'
+        'one judged entry with E x S < |exact|/2 (affine: allowance < |A_ij|/2).  Entries whose restriction is not '
+        'resolved or has S = 0 (identically zero to first order) carry no accuracy claim and are counted.'
         % (nspec, b['N'], b['M'], b['K'], len(ctx.rotate(range(N_VARIANTS), 3)), len(ctx.rotate(range(3), 1))))
     return fw.finish(ctx, acc, LEVEL, rule, exhaustive=True, required_cells=required_cells(ctx.tier),
                      assumptions=['envelope constants E(method, 1) are the calibrated numbers of Derivative frozen in '
